@@ -123,6 +123,7 @@ fn main() {
                     "fuzz" => record::gen_fuzz(&mut rec, &mut rng, n),
                     "threads" => record::gen_threads(&mut rec, &mut rng, n, threads_arg),
                     "deep" => record::gen_deep(&mut rec, &mut rng, n),
+                    "builtins" => record::gen_builtins(&mut rec, &mut rng, n),
                     other => {
                         eprintln!("unknown generator {other}");
                         std::process::exit(2);
